@@ -170,104 +170,71 @@ Proof.
   - rewrite SB. eexists; split; reflexivity.
 Qed.
 
-(* shutdown(): one more section and Run has returned, unless the service shutdown is blocked *)
+(* shutdown(): one more section and Run has returned, Closed — always (the service shutdown cannot
+   be blocked any more: shutdownService drains asyncErrorChannel) *)
 Lemma final_step_l o s bg b :
-  st_pc s = PFinal bg -> svc_blocked (live_gen s) s = false ->
-  st_pc (fst (step o s (LRun b))) = PDone DStopped /\
+  st_pc s = PFinal bg ->
+  st_pc (fst (step o s (LRun b))) = PDone DStopped /\ st_phase (fst (step o s (LRun b))) = Closed /\
   exists pre r, snd (step o s (LRun b)) = pre ++ [ASetState Closed; AReturn r].
 Proof.
-  intros EP NB. simpl. unfold run_step. rewrite EP, NB.
-  destruct (svc_shutdown (live_gen s) (cfg_of o (live_gen s))) as [acts ok]. simpl. split; auto.
+  intros EP. simpl. unfold run_step. rewrite EP.
+  destruct (svc_shutdown (live_gen s) (cfg_of o (live_gen s))) as [acts ok]. simpl. split; auto. split; auto.
   eexists. eexists. rewrite app_assoc. reflexivity.
+Qed.
+
+(* the retirement of the old service in a reload always completes too *)
+Lemma reload_step_l o s b :
+  st_pc s = PReload ->
+  st_pc (fst (step o s (LRun b))) = PSetup false \/ st_pc (fst (step o s (LRun b))) = PDone DRetireFail.
+Proof.
+  intros EP. simpl. unfold run_step. rewrite EP.
+  destruct (svc_shutdown _ _) as [acts ok]. destruct ok; simpl; auto.
 Qed.
 
 (* the failing sections return an error *)
 Lemma failure_returns_error_l o s b k :
   (forall k0, st_pc s <> PDone k0) -> st_pc (fst (step o s (LRun b))) = PDone k -> k <> DStopped ->
-  exists pre e, snd (step o s (LRun b)) = pre ++ [AReturn e] /\ e <> RNil.
+  exists pre e, snd (step o s (LRun b)) = pre ++ [AReturn e] /\ fail_result e = true.
 Proof.
   intros ND HP KN. change (step o s (LRun b)) with (run_step o s b) in *. unfold run_step in *.
   destruct (st_pc s) eqn:EP; try (simpl in HP; rewrite ?EP in HP; discriminate HP).
   - destruct (setup o (st_gen s) (st_open s)) as [[acts err] open'] eqn:ES.
-    assert (forall e, err = Some e -> e <> RNil) as NE.
+    assert (forall e, err = Some e -> fail_result e = true /\ fail_result (RReload e) = true) as NE.
     { intros e ->. unfold setup in ES. destruct (outcome (cfg_of o (st_gen s)));
-        try (inversion ES; discriminate);
-        destruct (svc_new _ _) as [cr ok1]; destruct (negb ok1); try (inversion ES; discriminate);
-        destruct (svc_start _ _) as [sa ok2]; destruct (negb ok2); inversion ES; discriminate. }
+        try (inversion ES; split; reflexivity);
+        destruct (svc_new _ _) as [cr ok1]; destruct (negb ok1); try (inversion ES; split; reflexivity);
+        destruct (svc_start _ _) as [sa ok2]; destruct (negb ok2); inversion ES; split; reflexivity. }
     destruct err as [e|]; [|simpl in *; discriminate HP].
     destruct initial; simpl in *.
     + exists (acts ++ [ASetState Closed]), e. split; [now rewrite <- app_assoc|apply NE; auto].
-    + exists acts, (RReload e). split; auto. discriminate.
+    + exists acts, (RReload e). split; auto. apply NE; auto.
   - exfalso. unfold take in HP. destruct b;
       repeat match type of HP with context [match ?x with _ => _ end] => destruct x end; simpl in HP; try rewrite EP in HP; discriminate HP.
-  - destruct (svc_blocked _ _); simpl in *; try discriminate HP.
-    destruct (svc_shutdown _ _) as [acts ok]. destruct ok; simpl in *; try discriminate HP.
-    exists acts, RErrRetire. split; auto. discriminate.
-  - destruct (svc_blocked _ _); simpl in *; try discriminate HP.
-    destruct (svc_shutdown _ _) as [acts ok]. simpl in *. inversion HP; subst. congruence.
+  - destruct (svc_shutdown _ _) as [acts ok]. destruct ok; simpl in *; try discriminate HP.
+    exists acts, RErrRetire. split; auto.
+  - destruct (svc_shutdown _ _) as [acts ok]. simpl in *. inversion HP; subst. congruence.
   - exfalso. eapply ND; eauto.
 Qed.
 
-(* ---- no fatal-status senders: Run is never blocked ------------------------------------------------ *)
-Definition all_plain (l : list sender) : bool :=
-  forallb (fun w => match w with SndPlain => true | _ => false end) l.
-
-Lemma all_plain_nb g l : all_plain l = true -> existsb (sender_eqb (SndFatal g)) l = false.
-Proof. induction l as [|w l IH]; simpl; auto. destruct w; simpl; auto. discriminate. Qed.
-
-Lemma all_plain_not_blocked g s : all_plain (st_async s) = true -> svc_blocked g s = false.
-Proof. apply all_plain_nb. Qed.
-
-Lemma take_async s b : all_plain (st_async s) = true -> all_plain (st_async (fst (take s b))) = true.
+(* ---- Run is never blocked -------------------------------------------------------------------------- *)
+Lemma run_step_not_stuck o s b : st_pc s <> PStuck -> st_pc (fst (run_step o s b)) <> PStuck.
 Proof.
-  intros H. unfold take. destruct b.
-  - destruct (st_watch s) as [|[] r]; simpl; auto.
-  - destruct (st_async s) as [|e r] eqn:EA; simpl.
-    + rewrite EA. reflexivity.
-    + simpl in H. apply andb_true_iff in H as [_ H]. exact H.
-  - destruct (st_sigs s) as [|[] r]; simpl; auto.
-  - destruct (st_chan_closed s); simpl; auto.
-  - destruct (st_ctx_done s); simpl; auto.
+  intros NS. unfold run_step. destruct (st_pc s) eqn:EP; simpl; try discriminate; try congruence.
+  all: try (destruct (setup o (st_gen s) (st_open s)) as [[acts err] open']; destruct err as [[]|]; try destruct initial; simpl; discriminate).
+  all: try (unfold take; destruct b;
+      repeat match goal with |- context [match ?x with _ => _ end] => destruct x end; simpl; congruence).
+  all: try (destruct (svc_shutdown _ _) as [acts ok]; try destruct ok; simpl; discriminate).
 Qed.
 
-Lemma step_plain o s l : nofatal l -> all_plain (st_async s) = true -> st_pc s <> PStuck ->
-  all_plain (st_async (fst (step o s l))) = true /\ st_pc (fst (step o s l)) <> PStuck.
+Lemma never_stuck_l o ls : forall s, st_pc s <> PStuck -> st_pc (fst (run o s ls)) <> PStuck.
 Proof.
-  intros NF AP NS. destruct l.
-  - simpl. destruct (Nat.eqb _ 0); simpl; auto.
-  - simpl. destruct (Nat.ltb _ 3); simpl; auto.
-  - destruct who; [|discriminate NF]. simpl. split; auto. unfold all_plain in *. rewrite forallb_app, AP. reflexivity.
-  - simpl; auto.
-  - simpl. destruct (st_phase s) eqn:EPH; simpl; auto;
-      (destruct (shut_close (shut_check s)) as [s1 a1] eqn:E; apply shut_close_shape in E as [_ [_ [_ [K4 K5]]]];
-       destruct (shut_check_shape s) as [_ [_ [J3 J4]]]; simpl; rewrite K5, J4, K4, J3; auto).
-  - simpl. destruct (shut_check_shape s) as [_ [_ [J3 J4]]]. rewrite J3, J4. auto.
-  - simpl. destruct (shut_close s) as [s1 a1] eqn:E. apply shut_close_shape in E as [_ [_ [_ [K4 K5]]]].
-    simpl. rewrite K4, K5. auto.
-  - simpl. unfold run_step. destruct (st_pc s) eqn:EP; simpl; auto; try (split; [auto|discriminate]).
-    + destruct (setup o (st_gen s) (st_open s)) as [[acts err] open']. destruct err; [destruct initial|]; simpl; split; auto; discriminate.
-    + split; [apply take_async; auto|].
-      unfold take. destruct b;
-        repeat match goal with |- context [match ?x with _ => _ end] => destruct x end; simpl; try congruence.
-    + rewrite (all_plain_not_blocked _ _ AP).
-      destruct (svc_shutdown _ _) as [acts ok]. destruct ok; simpl; split; auto; discriminate.
-    + rewrite (all_plain_not_blocked _ _ AP).
-      destruct (svc_shutdown _ _) as [acts ok]. simpl; split; auto; discriminate.
-    + split; auto. rewrite EP. discriminate.
-Qed.
-
-Lemma no_fatal_never_stuck_l o ls :
-  no_fatal ls -> all_plain (st_async (fst (run o init ls))) = true /\ st_pc (fst (run o init ls)) <> PStuck.
-Proof.
-  intros NF.
-  assert (forall ls s, (forall l, In l ls -> nofatal l) -> all_plain (st_async s) = true -> st_pc s <> PStuck ->
-            all_plain (st_async (fst (run o s ls))) = true /\ st_pc (fst (run o s ls)) <> PStuck) as G.
-  { induction ls0 as [|l r IH]; intros s H AP NS; simpl; auto.
-    destruct (step o s l) as [s1 a1] eqn:E1.
-    destruct (step_plain o s l (H l (or_introl eq_refl)) AP NS) as [P1 P2]. rewrite E1 in *. simpl in *.
-    specialize (IH s1 (fun x Hx => H x (or_intror Hx)) P1 P2).
-    destruct (run o s1 r) as [s2 a2]. simpl in *. auto. }
-  apply G; auto. discriminate.
+  induction ls as [|l r IH]; intros s NS; simpl; auto.
+  assert (st_pc (fst (step o s l)) <> PStuck) as N1.
+  { destruct (is_run l) eqn:ER.
+    - destruct l; try discriminate. apply run_step_not_stuck; auto.
+    - destruct (step o s l) as [s1 a1] eqn:E1. destruct (env_step_shape o s l s1 a1 E1 ER) as [_ [_ [_ K]]]. simpl. now rewrite K. }
+  destruct (step o s l) as [s1 a1]. simpl in N1. specialize (IH s1 N1).
+  destruct (run o s1 r) as [s2 a2]. exact IH.
 Qed.
 
 (* ---- Shutdown() --------------------------------------------------------------------------------- *)
@@ -335,12 +302,11 @@ Proof.
   - unfold shut_check. destruct ph; simpl; auto.
   - unfold shut_close. simpl. destruct cl; [|destruct cc]; simpl; auto.
   - unfold run_step. simpl. destruct p; simpl; auto.
-    + match goal with |- context [setup ?a ?b ?c] => destruct (setup a b c) as [[acts err] open'] end.
-      destruct err; [destruct initial|]; simpl; auto.
-    + unfold take. simpl. destruct b;
-        repeat match goal with |- context [match ?x with _ => _ end] => destruct x eqn:? end; simpl; auto.
-    + destruct (svc_blocked _ _); simpl; auto; try (destruct (svc_shutdown _ _) as [acts ok]; try destruct ok; simpl; auto).
-    + destruct (svc_blocked _ _); simpl; auto; try (destruct (svc_shutdown _ _) as [acts ok]; try destruct ok; simpl; auto).
+    all: try (match goal with |- context [setup ?a ?b ?c] => destruct (setup a b c) as [[acts err] open'] end;
+      destruct err as [[]|]; try destruct initial; simpl; auto).
+    all: try (unfold take; simpl; destruct b;
+        repeat match goal with |- context [match ?x with _ => _ end] => destruct x eqn:? end; simpl; auto).
+    all: try (destruct (svc_shutdown _ _) as [acts ok]; try destruct ok; simpl; auto).
 Qed.
 
 Lemma sticky_l o ls : forall s,
@@ -352,43 +318,18 @@ Proof.
   destruct (IH s1) as [J1 J2]. destruct (run o s1 r) as [s2 a2]. simpl in *. split; auto.
 Qed.
 
-(* a blocked Run stays blocked whatever happens afterwards *)
-Lemma stuck_forever_l o ls : forall s, st_pc s = PStuck ->
-  st_pc (fst (run o s ls)) = PStuck /\ count is_return (snd (run o s ls)) = 0.
-Proof.
-  induction ls as [|l r IH]; intros s H; simpl; auto.
-  destruct (step o s l) as [s1 a1] eqn:E1.
-  assert (st_pc s1 = PStuck /\ count is_return a1 = 0) as [H1 H2].
-  { destruct (is_run l) eqn:ER.
-    - destruct l; try discriminate. simpl in E1. unfold run_step in E1. rewrite H in E1. inversion E1; subst. auto.
-    - destruct (env_step_shape o s l s1 a1 E1 ER) as [[->|[->| ->]] [_ [_ K]]]; rewrite K; auto. }
-  destruct (IH s1 H1) as [J1 J2]. destruct (run o s1 r) as [s2 a2]. simpl in *.
-  split; auto. rewrite count_app. lia.
-Qed.
-
 Definition refute_oracle : oracle := mkOracle (fun _ => mkCfg 1 1 BOk []) false.
-(* two components of the running service report a fatal error at about the same time *)
+(* REGRESSION history of finding C20-FATAL-DEADLOCK (fixed by 98f2ce3d0): two components of the running
+   service report a fatal error at about the same time.  Old.v: the old step function got stuck in
+   Closing for ever; now the second sender is drained while the service shuts down. *)
 Definition refute_history : list label :=
   [LRun BrWatch; LRun BrWatch; LInjAsync (SndFatal 0); LInjAsync (SndFatal 0); LRun BrAsync; LRun BrAsync].
 
-Lemma ends_closed_refuted_l :
-  exists o ls,
-    let s := fst (run o init ls) in let log := snd (run o init ls) in
-    In (ASetState Running) log /\                       (* the run reached Running *)
-    (exists l1 l2, ls = l1 ++ LRun BrAsync :: l2 /\       (* ... and took an asynchronous error at the select *)
-                   st_pc (fst (run o init l1)) = PSelect /\ stop_branch (fst (run o init l1)) BrAsync = true) /\
-    st_phase s = Closing /\ count is_return log = 0 /\    (* it is neither Closed nor has Run returned *)
-    (forall b, enabled s (LRun b) = false) /\             (* Run cannot take another step *)
-    forall ls', st_pc (fst (run o s ls')) = PStuck /\ count is_return (snd (run o s ls')) = 0.   (* ever *)
-Proof.
-  exists refute_oracle, refute_history. cbv zeta.
-  split; [vm_compute; tauto|].
-  split; [exists [LRun BrWatch; LRun BrWatch; LInjAsync (SndFatal 0); LInjAsync (SndFatal 0)], [LRun BrAsync]; vm_compute; auto|].
-  split; [vm_compute; reflexivity|].
-  split; [vm_compute; reflexivity|].
-  split; [intros b; vm_compute; reflexivity|].
-  intros ls'. apply stuck_forever_l. vm_compute. reflexivity.
-Qed.
+Lemma deadlock_history_now_closes_l :
+  let r := run refute_oracle init refute_history in
+  st_pc (fst r) = PDone DStopped /\ st_phase (fst r) = Closed /\ st_async (fst r) = [] /\
+  last_opt (snd r) = Some (AReturn RNil).
+Proof. vm_compute. auto. Qed.
 
 (* a run that ends by a failed reload is not Closed and its providers are not shut down *)
 Lemma reload_failure_not_closed_l :
@@ -423,7 +364,7 @@ Proof.
   - unfold shut_close. simpl. destruct cl; [|destruct cc]; simpl; left; apply SAME.
   - unfold run_step. simpl. destruct p; simpl; try (left; apply SAME).
     + match goal with |- context [setup ?a ?b ?c] => destruct (setup a b c) as [[acts err] open'] end.
-      destruct err; [destruct initial|]; simpl; left; apply SAME.
+      destruct err as [[]|]; try destruct initial; simpl; left; apply SAME.
     + unfold take. simpl. destruct b.
       * destruct w as [|e r]; simpl; [left; apply SAME|].
         right; left. split; [reflexivity|split; [reflexivity|]]. exists e. destruct e; simpl; auto.
@@ -431,16 +372,20 @@ Proof.
       * destruct sg as [|[] r]; simpl; left; apply SAME.
       * destruct cc; simpl; left; apply SAME.
       * destruct cx; simpl; left; apply SAME.
-    + destruct (svc_blocked _ _); simpl; try (left; apply SAME);
-        try (destruct (svc_shutdown _ _) as [acts ok]; try destruct ok; simpl; left; apply SAME).
+    + destruct (svc_shutdown _ _) as [acts ok]; destruct ok; simpl; left; apply SAME.
     + right; right. exists b, bg. split; [reflexivity|split; [reflexivity|]].
-      destruct (svc_blocked _ _); simpl; auto; try (destruct (svc_shutdown _ _) as [acts ok]; simpl; auto).
+      destruct (svc_shutdown _ _) as [acts ok]; simpl; auto.
 Qed.
 
+(* asynchronous-error senders: FIFO, the head is removed only by Run taking that branch in the select;
+   apart from that the whole queue is received and discarded exactly while Run shuts a service down
+   (shutdownService: retirement in a reload, shutdown(), clean-up after a failed Start) *)
 Lemma async_fifo_l o s l :
   let s' := fst (step o s l) in
   (exists x, st_async s' = st_async s ++ x) \/
-  (l = LRun BrAsync /\ st_pc s = PSelect /\ exists e, st_async s = e :: st_async s' /\ st_pc s' = PFinal false).
+  (l = LRun BrAsync /\ st_pc s = PSelect /\ exists e, st_async s = e :: st_async s' /\ st_pc s' = PFinal false) \/
+  (exists b, l = LRun b /\ st_async s' = [] /\
+     (st_pc s = PReload \/ (exists bg, st_pc s = PFinal bg) \/ (exists i k, st_pc s = PSetup i /\ st_pc s' = PDone k))).
 Proof.
   destruct s as [ph p lv g op cc cl sg w asy cx pv].
   assert (forall wl : list sender, exists x, wl = wl ++ x) as SAME by (intros wl; exists []; now rewrite app_nil_r).
@@ -454,18 +399,17 @@ Proof.
   - unfold shut_close. simpl. destruct cl; [|destruct cc]; simpl; left; apply SAME.
   - unfold run_step. simpl. destruct p; simpl; try (left; apply SAME).
     + match goal with |- context [setup ?a ?b ?c] => destruct (setup a b c) as [[acts err] open'] end.
-      destruct err; [destruct initial|]; simpl; left; apply SAME.
+      destruct err as [[]|]; try destruct initial; simpl; try (left; apply SAME);
+        (right; right; exists b; split; [reflexivity|split; [reflexivity|]]; right; right; eexists; eexists; split; reflexivity).
     + unfold take. simpl. destruct b.
       * destruct w as [|[] r]; simpl; left; apply SAME.
       * destruct asy as [|e r]; simpl; [left; apply SAME|].
-        right. split; [reflexivity|split; [reflexivity|]]. exists e. auto.
+        right; left. split; [reflexivity|split; [reflexivity|]]. exists e. auto.
       * destruct sg as [|[] r]; simpl; left; apply SAME.
       * destruct cc; simpl; left; apply SAME.
       * destruct cx; simpl; left; apply SAME.
-    + destruct (svc_blocked _ _); simpl; try (left; apply SAME);
-        try (destruct (svc_shutdown _ _) as [acts ok]; try destruct ok; simpl; left; apply SAME).
-    + destruct (svc_blocked _ _); simpl; try (left; apply SAME);
-        try (destruct (svc_shutdown _ _) as [acts ok]; try destruct ok; simpl; left; apply SAME).
+    + right; right. exists b. destruct (svc_shutdown _ _) as [acts ok]; destruct ok; simpl; auto.
+    + right; right. exists b. destruct (svc_shutdown _ _) as [acts ok]; simpl. split; auto. split; auto. right; left; eauto.
 Qed.
 
 (* ---- provider level: every REGISTERED provider is shut down exactly as often as the resolver ------- *)
@@ -513,19 +457,9 @@ Proof.
     destruct (p <? _); reflexivity.
 Qed.
 
-(* ---- close(mr.watcher) under a blocked provider goroutine -------------------------------------------- *)
-Lemma count_repeat_panic n : count is_sender_panic (repeat ASenderPanic n) = n.
-Proof. induction n; simpl; auto. rewrite count_cons. simpl. now rewrite IHn. Qed.
-
-Lemma fprefix_panics s : count is_sender_panic (final_prefix s) = pred (length (st_watch s)).
-Proof.
-  unfold final_prefix. rewrite count_app, count_repeat_panic.
-  destruct (st_open s); simpl; rewrite ?count_cons, ?count_nil; simpl; lia.
-Qed.
-
-Lemma step_panics o s l :
-  count is_sender_panic (snd (step o s l)) =
-  match l, st_pc s with LRun _, PFinal _ => pred (length (st_watch s)) | _, _ => 0 end.
+(* ---- no provider goroutine panics: the watcher channel is closed only after the blocked senders
+   have been released (bc929f066) ------------------------------------------------------------------ *)
+Lemma step_no_panic o s l : count is_sender_panic (snd (step o s l)) = 0.
 Proof.
   destruct (is_run l) eqn:ER.
   - destruct l; try discriminate. simpl. unfold run_step.
@@ -534,55 +468,42 @@ Proof.
       assert (count is_sender_panic acts = 0) as Z.
       { apply setup_cases in ES as [body [-> SH]]. rewrite count_app, closes_count by reflexivity.
         rewrite (shape_misc _ _ _ _ SH) by (try (intros []; simpl; congruence); reflexivity). reflexivity. }
-      destruct err; [destruct initial|]; simpl; rewrite count_app, Z; reflexivity.
+      destruct err as [[]|]; try destruct initial; simpl; rewrite count_app, Z; reflexivity.
     + unfold take. destruct b;
         repeat match goal with |- context [match ?x with _ => _ end] => destruct x end; simpl; reflexivity.
-    + destruct (svc_blocked _ _); simpl; auto.
-      destruct (svc_shutdown (live_gen s) (cfg_of o (live_gen s))) as [acts ok] eqn:ESW.
+    + destruct (svc_shutdown (live_gen s) (cfg_of o (live_gen s))) as [acts ok] eqn:ESW.
       assert (count is_sender_panic acts = 0) as Z.
       { replace acts with (fst (svc_shutdown (live_gen s) (cfg_of o (live_gen s)))) by now rewrite ESW.
         apply sweep_misc; [intros []; simpl; congruence|reflexivity]. }
       destruct ok; simpl; rewrite count_app, Z; reflexivity.
-    + destruct (svc_blocked _ _); simpl.
-      * rewrite !count_app, fprefix_panics. simpl. rewrite !count_cons, count_nil. simpl. lia.
-      * destruct (svc_shutdown (live_gen s) (cfg_of o (live_gen s))) as [acts ok] eqn:ESW.
-        assert (count is_sender_panic acts = 0) as Z.
-        { replace acts with (fst (svc_shutdown (live_gen s) (cfg_of o (live_gen s)))) by now rewrite ESW.
-          apply sweep_misc; [intros []; simpl; congruence|reflexivity]. }
-        simpl. rewrite !count_app, fprefix_panics, Z. simpl. rewrite !count_cons, count_nil. simpl. lia.
+    + destruct (svc_shutdown (live_gen s) (cfg_of o (live_gen s))) as [acts ok] eqn:ESW.
+      assert (count is_sender_panic acts = 0) as Z.
+      { replace acts with (fst (svc_shutdown (live_gen s) (cfg_of o (live_gen s)))) by now rewrite ESW.
+        apply sweep_misc; [intros []; simpl; congruence|reflexivity]. }
+      simpl. rewrite !count_app, fprefix_count, Z by reflexivity. simpl. rewrite !count_cons, count_nil. reflexivity.
   - destruct (step o s l) as [s1 a1] eqn:E1.
-    destruct (env_step_shape o s l s1 a1 E1 ER) as [[->|[->| ->]] _]; simpl;
-      destruct l; try discriminate; reflexivity.
+    destruct (env_step_shape o s l s1 a1 E1 ER) as [[->|[->| ->]] _]; reflexivity.
 Qed.
 
-(* PARTIAL: as long as at most one notification is ever pending, no provider goroutine panics *)
-Lemma no_sender_panic_l o ls : forall s,
-  (forall l1 l2, ls = l1 ++ l2 -> length (st_watch (fst (run o s l1))) <= 1) ->
-  count is_sender_panic (snd (run o s ls)) = 0.
+Lemma no_sender_panic_l o ls : forall s, count is_sender_panic (snd (run o s ls)) = 0.
 Proof.
-  induction ls as [|l r IH]; intros s H; simpl; auto.
-  destruct (step o s l) as [s1 a1] eqn:E1.
-  assert (count is_sender_panic a1 = 0) as Z.
-  { pose proof (step_panics o s l) as SP. rewrite E1 in SP. simpl in SP. rewrite SP.
-    pose proof (H [] (l :: r) eq_refl) as H0. simpl in H0.
-    destruct l; auto. destruct (st_pc s); auto. lia. }
-  specialize (IH s1).
-  destruct (run o s1 r) as [s2 a2] eqn:E2. simpl in *. rewrite count_app, Z. simpl. apply IH.
-  intros l1 l2 E. specialize (H (l :: l1) l2). simpl in H. rewrite E1 in H.
-  destruct (run o s1 l1) as [s3 a3]. simpl in *. apply H. now rewrite E.
+  induction ls as [|l r IH]; intros s; simpl; auto.
+  pose proof (step_no_panic o s l) as Z. destruct (step o s l) as [s1 a1]. specialize (IH s1).
+  destruct (run o s1 r) as [s2 a2]. simpl in *. rewrite count_app. lia.
 Qed.
 
-(* REFUTED in general: a provider sends a change and, right behind it, a second notification while
-   Run is busy; a shutdown request is taken before the change: the resolver closes the watcher
-   channel under the blocked provider goroutine, which panics (finding C20-WATCH-SEND-ON-CLOSED) *)
+(* REGRESSION history of finding C20-WATCH-SEND-ON-CLOSED (fixed by bc929f066): a provider sends a
+   change and, right behind it, a second notification while Run is busy; a shutdown request is taken
+   before the change.  Old.v: the blocked provider goroutine panicked; now it is released and its
+   notification dropped. *)
 Definition panic_history : list label :=
   [LRun BrWatch; LInjWatch false; LInjWatch true; LShutdownCall; LRun BrWatch; LRun BrShutdownChan; LRun BrWatch].
 
-Lemma orderly_shutdown_refuted_l :
-  exists o ls, let s := fst (run o init ls) in let log := snd (run o init ls) in
-    In (ASetState Running) log /\ st_pc s = PDone DStopped /\ st_phase s = Closed /\
-    count is_sender_panic log = 1.
-Proof. exists refute_oracle, panic_history. vm_compute. tauto. Qed.
+Lemma panic_history_now_orderly_l :
+  let r := run refute_oracle init panic_history in
+  st_pc (fst r) = PDone DStopped /\ st_phase (fst r) = Closed /\ count is_sender_panic (snd r) = 0 /\
+  st_watch (fst r) = [false].
+Proof. vm_compute. auto. Qed.
 
 Lemma initial_failure_closed_l o ls :
   st_pc (fst (run o init ls)) = PDone DInitFail -> st_phase (fst (run o init ls)) = Closed.
